@@ -80,7 +80,7 @@ pub struct Setup {
     pub fresh: bool,
 }
 
-fn parse_val(s: &str) -> Option<Val> {
+pub(crate) fn parse_val(s: &str) -> Option<Val> {
     if s == "null" {
         return Some(Val::Null);
     }
@@ -99,7 +99,7 @@ fn parse_val(s: &str) -> Option<Val> {
     Some(Val::Int(n))
 }
 
-fn ident(s: &str) -> bool {
+pub(crate) fn ident(s: &str) -> bool {
     !s.is_empty() && s.chars().all(|c| c.is_ascii_lowercase() || c.is_ascii_digit()) && s.chars().next().unwrap().is_ascii_lowercase()
 }
 
@@ -258,7 +258,7 @@ fn parse_pred(ws: &[&str]) -> Option<Option<Pred>> {
     }
 }
 
-fn parse_stmt(ws: &[&str]) -> Option<Stmt> {
+pub(crate) fn parse_stmt(ws: &[&str]) -> Option<Stmt> {
     match ws {
         ["sel", t, rest @ ..] if ident(t) => Some(Stmt::Sel { table: t.to_string(), pred: parse_pred(rest)? }),
         ["del", t, rest @ ..] if ident(t) => Some(Stmt::Del { table: t.to_string(), pred: parse_pred(rest)? }),
@@ -284,7 +284,7 @@ fn parse_stmt(ws: &[&str]) -> Option<Stmt> {
     }
 }
 
-fn sess_name(s: &str) -> bool {
+pub(crate) fn sess_name(s: &str) -> bool {
     s.len() >= 2 && s.starts_with('s') && s[1..].chars().all(|c| c.is_ascii_digit())
 }
 
@@ -324,7 +324,7 @@ pub fn parse_case(line: &str) -> Option<(Setup, Vec<Op>)> {
 
 // ------------------------------------------------------------------------------------------------ SQL text
 
-fn sql_val(v: &Val) -> String {
+pub(crate) fn sql_val(v: &Val) -> String {
     match v {
         Val::Int(n) => n.to_string(),
         Val::Null => "NULL".into(),
@@ -394,7 +394,7 @@ fn sql_create(t: &Table) -> String {
 /// Error classes.  `Session::execute` / `Database::execute` hand every error through the task runner as a *string*
 /// (`TaskError::TaskFailed(e.to_string())`), so the class has to be read off the `Display` prefix that the error enums
 /// (`QueryError`, `RuntimeError`, `QueryPreparationError`) put in front of the message.
-fn err_class(msg: &str) -> &'static str {
+pub(crate) fn err_class(msg: &str) -> &'static str {
     let m = msg.to_ascii_lowercase();
     if m.contains("conflict") {
         "conflict"
@@ -409,7 +409,7 @@ fn err_class(msg: &str) -> &'static str {
     }
 }
 
-fn show_dt(d: &DataType) -> String {
+pub(crate) fn show_dt(d: &DataType) -> String {
     match d {
         DataType::Null => "null".into(),
         DataType::Int(v) => v.value().to_string(),
@@ -446,7 +446,7 @@ fn rows_violate(t: &Table, cells: &[Vec<String>]) -> bool {
     false
 }
 
-fn show_result(r: Result<QueryResult, String>, is_read: bool, diag: &mut Vec<String>) -> String {
+pub(crate) fn show_result(r: Result<QueryResult, String>, is_read: bool, diag: &mut Vec<String>) -> String {
     show_result_chk(r, is_read, diag, None)
 }
 
@@ -474,15 +474,15 @@ fn show_result_chk(r: Result<QueryResult, String>, is_read: bool, diag: &mut Vec
     }
 }
 
-static COUNTER: AtomicU64 = AtomicU64::new(0);
+pub(crate) static COUNTER: AtomicU64 = AtomicU64::new(0);
 
 /// The library prints to stdout on some DDL statements (`CREATE UNIQUE INDEX`); stdout is the line protocol of
 /// `axh exec`, so it points to /dev/null while a case runs.
-struct QuietStdout {
+pub(crate) struct QuietStdout {
     saved: i32,
 }
 impl QuietStdout {
-    fn new() -> QuietStdout {
+    pub(crate) fn new() -> QuietStdout {
         use std::io::Write;
         let _ = std::io::stdout().flush();
         unsafe {
